@@ -212,6 +212,10 @@ var LASTRES;
 // built element by element with default attributes (whatever bookkeeping the producing fast path left behind must not show). Returns ""
 // or a description of the first difference.
 function checkLastResult() {
+  var savedLog = LOG.length, savedNext = NEXT;
+  try { return checkLastResult1(); } finally { LOG.length = savedLog; NEXT = savedNext; } // the observers run accessors of the prototypes under test
+}
+function checkLastResult1() {
   var R = LASTRES; LASTRES = undefined;
   if (R === undefined || R.length > 5000 || Object.getPrototypeOf(R) !== Array.prototype) return "";
   var T = []; T.length = R.length;
